@@ -112,6 +112,29 @@ class SimDateTime(_dt.datetime):
         return CLOCKSEAM.now()
 
 
+def _sim_seconds():
+    return (CLOCKSEAM.now() - _dt.datetime(1970, 1, 1)).total_seconds()
+
+
+class _SimTimeModule(object):
+    """Stand-in for the `time` module inside dsw: every clock reads the simulated clock; sleeping costs nothing."""
+    time = staticmethod(_sim_seconds)
+    monotonic = staticmethod(_sim_seconds)
+    perf_counter = staticmethod(_sim_seconds)
+
+    @staticmethod
+    def sleep(seconds):
+        return None
+
+
+class _SimDatetimeModule(object):
+    """Stand-in for the `datetime` module inside dsw."""
+    datetime = SimDateTime
+    timedelta = _dt.timedelta
+    date = _dt.date
+    timezone = _dt.timezone
+
+
 class StdoutRecorder(io.StringIO):
     pass
 
@@ -152,6 +175,19 @@ def install(stepclock=True):
     os.environ["DSW_VERIF_SIM"] = "1"
     numpy.random.seed = RNG.seed
     dsw.operation.datetime = SimDateTime
+    # every clock any dsw module has imported reads the simulated clock (a deadline added anywhere must not escape it)
+    import datetime as _real_dt
+    import time as _real_time
+    for module in (dsw.spiderweb, dsw.graphized, dsw.operation, dsw.biofilter):
+        for name, obj in list(vars(module).items()):
+            if obj is _real_dt.datetime:
+                setattr(module, name, SimDateTime)
+            elif obj is _real_dt:
+                setattr(module, name, _SimDatetimeModule)
+            elif obj is _real_time:
+                setattr(module, name, _SimTimeModule)
+            elif obj in (_real_time.time, _real_time.monotonic, _real_time.perf_counter):
+                setattr(module, name, _sim_seconds)
     if stepclock:
         from sim import stepclock as sc
         sc.install([dsw.spiderweb, dsw.graphized, dsw.operation, dsw.biofilter])
